@@ -257,7 +257,7 @@ fn multisets(kinds: usize, size: usize, f: &mut dyn FnMut(&[usize])) {
 
 pub fn run(tier: Tier) -> Report {
     let rep = Report::new("C17", tier);
-    rep.set_rule("every multiset of <= K stream items over Q queries x T tracks x distances {.25,.5,1,2,None} (quick: 2x2, K=4; thorough: 3x3 K=4 and 2x2 K=6), plus streams in which queries and tracks share ONE id space {1,2,3} (every ordered pair q != t x distances {.25,.5,1}, K=4 quick / 5 thorough), every permutation of streams of <= 4 items (rotations, reversal and adjacent transpositions of the canonical order for 5-6 items), N in {1,2,3}, min_votes in {1,2}, max_distance in {.5,.75,1,1.5,2,10} (three of them equal to a distance of the menu: 'not exceeding' is decided at equality); TopN and BestFit judged against the counting rules, results of tie-free streams required identical across orders; VisualVoting and Hungarian voting judged structurally. Non-trivial = at least two items.");
+    rep.set_rule("every multiset of <= K stream items over Q queries x T tracks x distances {.25,.5,1,2,None} (quick: 2x2, K=4; thorough: 3x3 K=4 and 2x2 K=6), plus streams in which queries and tracks share ONE id space {1,2,3} (every ordered pair q != t x distances {.25,.5,1}, K=4 quick / 5 thorough), every permutation of streams of <= 4 items (rotations, reversal and adjacent transpositions of the canonical order for 5-6 items), N in {1,2,3}, min_votes in {1,2}, max_distance in {.5,.75,1,1.5,2,10} (three of them equal to a distance of the menu: 'not exceeding' is decided at equality); TopN and BestFit judged against the counting rules, results of tie-free streams required identical across orders; VisualVoting and Hungarian voting judged structurally (Hungarian: weights {absent, 0 (gated out, the query still appears), .2, .5, .9}). Non-trivial = at least two items.");
     let dmenu: Vec<Option<f32>> = vec![Some(0.25), Some(0.5), Some(1.0), Some(2.0), None];
     let params: Vec<(usize, usize, f32)> = {
         let mut p = vec![];
@@ -398,12 +398,13 @@ pub fn run(tier: Tier) -> Report {
     }
 
     // Hungarian: every query of the stream gets itself or one track, no track twice (optimality: C02)
-    let hmenu: Vec<Option<f32>> = vec![None, Some(0.2), Some(0.5), Some(0.9)];
+    // (a weight of exactly 0 is what a gated-out Mahalanobis pair carries: the query still appears in the stream)
+    let hmenu: Vec<Option<f32>> = vec![None, Some(0.0), Some(0.2), Some(0.5), Some(0.9)];
     for nc in 1..=3usize {
         for nt in 1..=3usize {
             let cells = nc * nt;
             // 3x3: a smaller weight menu keeps the product at 3^9
-            let hmenu: Vec<Option<f32>> = if nt == 3 { vec![None, Some(0.5), Some(0.9)] } else { hmenu.clone() };
+            let hmenu: Vec<Option<f32>> = if nt == 3 { vec![None, Some(0.0), Some(0.9)] } else { hmenu.clone() };
             let total = hmenu.len().pow(cells as u32);
             par_for(total, 256, |idx| {
                 let mut k = idx;
